@@ -100,11 +100,25 @@ pub fn expect_all(ctx: &mut Ctx, prop: &str, route: &str, items: &[Item], capped
             }
             Ok(g) => {
                 if let Some(d) = diff_read(ex, g, i, cmp_kind_polygon) {
-                    ctx.fail(prop, "same-shape", route, format!("{}: item {}: {}", route, i, d));
+                    let (clause, site) = shape_diff_class(&d, route);
+                    ctx.fail(prop, clause, site, format!("{}: item {}: {}", route, i, d));
                     return;
                 }
             }
         }
+    }
+}
+
+/// Prefix of a ring-role difference on a ring whose double-precision area is lost to rounding.
+pub const ROUNDING_MARK: &str = "[float area rounds away] ";
+
+/// (clause, site) under which a shape difference is reported: ring roles lost to rounding of the
+/// floating-point area are one class whatever the route.
+pub fn shape_diff_class<'a>(d: &str, route: &'a str) -> (&'static str, &'a str) {
+    if d.starts_with(ROUNDING_MARK) {
+        ("ring-role-rounding", "float-area")
+    } else {
+        ("same-shape", route)
     }
 }
 
@@ -117,7 +131,12 @@ pub fn diff_read(ex: &Geom, got: &Geom, shape_i: usize, cmp_kind_polygon: &dyn F
     if is_polygon(ex.ty) {
         for (ri, (a, b)) in ex.parts.iter().zip(got.parts.iter()).enumerate() {
             if a.kind != b.kind && a.kind >= 0 && cmp_kind_polygon(shape_i, ri) {
-                return Some(format!("ring {} role {} vs {}", ri, a.kind, b.kind));
+                // a class of its own: the plain double-precision shoelace sum of this ring rounds to
+                // zero or to the other sign although the exact area is not zero
+                let naive: f64 = a.pts.windows(2).map(|w| (f64::from_bits(w[1][0]) - f64::from_bits(w[0][0])) * (f64::from_bits(w[1][1]) + f64::from_bits(w[0][1]))).sum();
+                let exact = exact_area(&a.pts).unwrap_or(0);
+                let lost = naive == 0.0 || naive.is_nan() || (naive < 0.0) != (exact < 0);
+                return Some(format!("{}ring {} role {} vs {}", if lost { ROUNDING_MARK } else { "" }, ri, a.kind, b.kind));
             }
         }
     }
@@ -126,19 +145,54 @@ pub fn diff_read(ex: &Geom, got: &Geom, shape_i: usize, cmp_kind_polygon: &dyn F
 
 /// Exact signed area (x8 scaled, doubled) of a ring when all its coordinates are bounded dyadic
 /// rationals (k/8, |k| < 2^21); None otherwise.
+/// Twice the signed area of the ring in units of (2^ex * 2^ey), exactly, as an integer - or None
+/// when the coordinates do not fit: per axis the values are written as integers times a common
+/// power of two (the smallest unit any of them needs); the integers must stay below 2^51.
 pub fn exact_area(pts: &[V]) -> Option<i128> {
-    let mut ks: Vec<(i128, i128)> = Vec::with_capacity(pts.len());
-    for p in pts {
-        let x = f64::from_bits(p[0]) * 8.0;
-        let y = f64::from_bits(p[1]) * 8.0;
-        if !(x.is_finite() && y.is_finite()) || x.fract() != 0.0 || y.fract() != 0.0 || x.abs() >= (1u64 << 21) as f64 || y.abs() >= (1u64 << 21) as f64 {
+    // (integer mantissa, exponent of its unit) of a finite double
+    fn parts(bits: u64) -> Option<(i128, i32)> {
+        let v = f64::from_bits(bits);
+        if !v.is_finite() {
             return None;
         }
-        ks.push((x as i128, y as i128));
+        if v == 0.0 {
+            return Some((0, i32::MAX));
+        }
+        let e = ((bits >> 52) & 0x7ff) as i32;
+        let frac = (bits & ((1u64 << 52) - 1)) as i128;
+        let (mut m, mut ex) = if e == 0 { (frac, -1074) } else { (frac | (1i128 << 52), e - 1075) };
+        while m & 1 == 0 {
+            m >>= 1;
+            ex += 1;
+        }
+        Some((if v < 0.0 { -m } else { m }, ex))
     }
+    let axis = |k: usize| -> Option<Vec<i128>> {
+        let ps: Vec<(i128, i32)> = pts.iter().map(|p| parts(p[k])).collect::<Option<Vec<_>>>()?;
+        let unit = ps.iter().filter(|p| p.0 != 0).map(|p| p.1).min().unwrap_or(0);
+        let mut out = Vec::with_capacity(ps.len());
+        for (m, ex) in ps {
+            if m == 0 {
+                out.push(0);
+                continue;
+            }
+            let sh = ex - unit;
+            if sh > 60 {
+                return None;
+            }
+            let v = m.checked_shl(sh as u32)?;
+            if v.abs() >= (1i128 << 51) {
+                return None;
+            }
+            out.push(v);
+        }
+        Some(out)
+    };
+    let xs = axis(0)?;
+    let ys = axis(1)?;
     let mut s: i128 = 0;
-    for w in ks.windows(2) {
-        s += (w[1].0 - w[0].0) * (w[1].1 + w[0].1);
+    for i in 1..xs.len() {
+        s += (xs[i] - xs[i - 1]) * (ys[i] + ys[i - 1]);
     }
     Some(s)
 }
